@@ -1,51 +1,39 @@
 (* The module's own three invariants (keeper/invariants.go: selling-, paying- and vesting-pool-reserve-amount, which
-   compare with >= and are never registered with the application) transcribed as predicates over the model state, and
-   proved for every reachable state as corollaries of the escrow part of the global invariant.  They are strictly
-   weaker than C01 (exact equality up to third-party deposits, Properties/C01.v). *)
+   compare with >= and are never registered with the application), transcribed as predicates over the model state
+   (Proofs/ModuleInv.v) and proved for every reachable state as corollaries of the escrow part of the global invariant.
+   They are strictly weaker than C01 (exact equality up to third-party deposits, Properties/C01.v).  The executable
+   versions are evaluated by the driver on every state the implementation reaches and compared with the verdicts of
+   the Go functions themselves (MINV lines of the harness). *)
 From Coq Require Import ZArith NArith List Bool Lia.
-From FR Require Import Dec Types Bank Match Step Genesis Model Spec.
-From FR.Proofs Require Import InvDefs InvAll EscrowBase.
+From FR Require Import Dec Types Bank Match Step Genesis Model Spec Checkers.
+From FR.Proofs Require Import InvDefs InvAll ModuleInv.
 Import ListNotations.
 Open Scope Z_scope.
 
-(* SellingPoolReserveAmountInvariant: every started auction's selling reserve holds at least the selling coin *)
-Definition selling_pool_reserve_amount (s : state) : Prop :=
-  forall a, In a (st_auctions s) -> a_status a = Started ->
-    a_sell_amt a <= st_bal s (Escrow Selling (a_id a)) (a_sell_denom a).
-
-(* PayingPoolReserveAmountInvariant: every auction's paying reserve holds at least the paying amounts of its bids
-   (counted only while the auction is started) *)
-Definition paying_pool_reserve_amount (s : state) : Prop :=
-  forall a, In a (st_auctions s) ->
-    (if status_eqb (a_status a) Started then sumZ (map (pay_amount (a_pay_denom a)) (bids_of s (a_id a))) else 0)
-    <= st_bal s (Escrow Paying (a_id a)) (a_pay_denom a).
-
-(* VestingPoolReserveAmountInvariant: every auction's vesting reserve holds at least its unreleased instalments
-   (counted only while the auction is vesting) *)
-Definition vesting_pool_reserve_amount (s : state) : Prop :=
-  forall a, In a (st_auctions s) ->
-    (if status_eqb (a_status a) VestingS
-     then sumZ (map v_amt (filter (fun v => negb (v_released v)) (vqs_of s (a_id a)))) else 0)
-    <= st_bal s (Escrow Vesting (a_id a)) (a_pay_denom a).
-
 Theorem C01_module_invariants : forall s, Inv s ->
   selling_pool_reserve_amount s /\ paying_pool_reserve_amount s /\ vesting_pool_reserve_amount s.
-Proof.
-  intros s I. destruct (inv_escrow _ I) as [B E]. repeat split.
-  - intros a Ha St. specialize (E Selling (a_id a) (a_sell_denom a)). unfold owed in E.
-    rewrite (Inv_find_in s a I Ha), N.eqb_refl, St in E. exact E.
-  - intros a Ha. specialize (E Paying (a_id a) (a_pay_denom a)). unfold owed in E.
-    rewrite (Inv_find_in s a I Ha), N.eqb_refl in E. cbn [andb] in E.
-    destruct (status_eqb (a_status a) Started); [exact E|apply B].
-  - intros a Ha. specialize (E Vesting (a_id a) (a_pay_denom a)). unfold owed in E.
-    rewrite (Inv_find_in s a I Ha), N.eqb_refl in E. cbn [andb] in E.
-    destruct (status_eqb (a_status a) VestingS); [exact E|apply B].
-Qed.
+Proof. exact module_invariants_hold. Qed.
 Print Assumptions C01_module_invariants.
 
 Theorem C01_module_invariants_reachable : forall bal now sw p ops,
   (forall x d, 0 <= bal x d) -> coins_ok (p_cfee p) None = true -> coins_ok (p_bfee p) None = true ->
   let s := run (init_state bal now sw p) ops in
   selling_pool_reserve_amount s /\ paying_pool_reserve_amount s /\ vesting_pool_reserve_amount s.
-Proof. intros bal now sw p ops Hb H1 H2 s. apply C01_module_invariants, Inv_reachable; assumption. Qed.
+Proof. intros bal now sw p ops Hb H1 H2 s. apply module_invariants_hold, Inv_reachable; assumption. Qed.
 Print Assumptions C01_module_invariants_reachable.
+
+(* the executable transcriptions mean the same and hold in every state satisfying the invariant *)
+Theorem C01_module_invariants_executable : forall s,
+  (selling_pool_b s = true <-> selling_pool_reserve_amount s) /\
+  (paying_pool_b s = true <-> paying_pool_reserve_amount s) /\
+  (vesting_pool_b s = true <-> vesting_pool_reserve_amount s) /\
+  (Inv s -> module_invariants_b s = true).
+Proof.
+  intros s. exact (conj (selling_pool_b_spec s) (conj (paying_pool_b_spec s) (conj (vesting_pool_b_spec s) (module_invariants_b_hold s)))).
+Qed.
+Print Assumptions C01_module_invariants_executable.
+
+(* the checker the driver evaluates for C01 (escrow equation and module invariants) holds of every model transition *)
+Theorem C01_all_checker : forall s o, Inv s -> c01_all (model_trans s o) = true.
+Proof. exact c01_all_model. Qed.
+Print Assumptions C01_all_checker.
